@@ -487,7 +487,7 @@ func (c *trCtx) rangeRec(x *ast.RangeStmt, elemTy types.Type, m *types.Map, k tr
 		c.norder++
 		ord := "order" + itoa(c.norder)
 		c.extraParams = append(c.extraParams, "("+ord+" : List "+et+")")
-		c.extraTypes = append(c.extraTypes, "List "+et)
+		c.extraTypes = append(c.extraTypes, "List "+c.qualType(elemTy, x.Pos())) // callers in other units pass it on: fully qualified
 		list = ord
 	}
 	callParts := append([]string{}, callArgs...)
